@@ -306,6 +306,7 @@ class TokenizerState:
         self.parenlev = 0
         self.continued = False
         self.indents = [0]
+        self.alt_indents = [0]  # same stack measured with tab size 1 (CPython's consistency check)
         self.last_line = ""
         self.line = ""
         self.pos = 0
@@ -407,14 +408,16 @@ class EndProg:
 def next_statement(state: TokenizerState) -> Generator[TokenInfo, None, bool | None]:
     if not state.line:
         return False  # break parent loop
-    column = 0
+    column = altcol = 0
     while state.pos < state.max:  # measure leading whitespace
         if state.line[state.pos] == " ":
             column += 1
+            altcol += 1
         elif state.line[state.pos] == "\t":
             column = (column // tabsize + 1) * tabsize
+            altcol += 1
         elif state.line[state.pos] == "\f":
-            column = 0
+            column = altcol = 0
         else:
             break
         state.pos += 1
@@ -443,8 +446,19 @@ def next_statement(state: TokenizerState) -> Generator[TokenInfo, None, bool | N
         )
         return True  # continue
 
-    if column > state.indents[-1]:  # count indents or dedents
+    def tab_error() -> TabError:
+        return TabError(
+            "inconsistent use of tabs and spaces in indentation", ("<tokenize>", state.lnum, state.pos, state.line)
+        )
+
+    if column == state.indents[-1]:
+        if altcol != state.alt_indents[-1]:
+            raise tab_error()
+    elif column > state.indents[-1]:  # count indents or dedents
+        if altcol <= state.alt_indents[-1]:
+            raise tab_error()
         state.indents.append(column)
+        state.alt_indents.append(altcol)
         yield TokenInfo(
             Token.INDENT, state.line[: state.pos], (state.lnum, 0), (state.lnum, state.pos), state.line
         )
@@ -455,6 +469,9 @@ def next_statement(state: TokenizerState) -> Generator[TokenInfo, None, bool | N
                 ("<tokenize>", state.lnum, state.pos, state.line),
             )
         state.indents = state.indents[:-1]
+        state.alt_indents = state.alt_indents[:-1]
+        if column == state.indents[-1] and altcol != state.alt_indents[-1]:
+            raise tab_error()
 
         yield TokenInfo(Token.DEDENT, "", (state.lnum, state.pos), (state.lnum, state.pos), state.line)
     return None
